@@ -25,6 +25,12 @@ OTHER = {"HS256": "HS384", "HS384": "HS512", "HS512": "HS256", "RS256": "PS256",
          "PS384": "PS512", "PS512": "RS512", "ES256": "ES384", "ES384": "ES256", "ES512": "ES256", "ES256K": "ES256", "EdDSA": "HS256"}
 
 
+# siblings: the algorithms the same key could also sign with (another digest, the other RSA padding)
+SIBLINGS = {"HS256": ["HS384", "HS512"], "HS384": ["HS256", "HS512"], "HS512": ["HS384", "HS256"], "RS256": ["RS384", "PS256"], "RS384": ["RS256", "PS384"],
+            "RS512": ["RS256", "PS512"], "PS256": ["PS384", "RS256"], "PS384": ["PS256", "RS384"], "PS512": ["PS256", "RS512"],
+            "ES256": ["ES384", "ES512"], "ES384": ["ES256", "ES512"], "ES512": ["ES256", "ES384"], "ES256K": ["ES384", "ES512"]}
+
+
 def _sign_on_own_curve(alg, jwk, msg: bytes) -> bytes:
     """ECDSA with the hash of `alg` but on the curve of the (unsuitable) key: R||S at that curve's coordinate length"""
     from cryptography.hazmat.primitives.asymmetric import ec
@@ -70,6 +76,8 @@ class Material:
                 self.H[1] = R.jdump(self.Hd[1])
                 self.S[1] = R.jws_sign(alg, self.k1, R.b64e(self.H[1]) + b"." + self.text[1])
         self.R1 = json.dumps(self.Hd[1], separators=(" , ", " : ")).encode()
+        msg1 = R.b64e(self.H[1]) + b"." + self.text[1]
+        self.S4 = [(_sign_on_own_curve(a, self.k1, msg1) if alg.startswith("ES") else R.jws_sign(a, self.k1, msg1)) for a in SIBLINGS.get(alg, [])]
 
     # ---- concrete forms; v = variant number
     def hseg(self, h, v):
@@ -87,6 +95,7 @@ class Material:
         if s == "S1": return s1
         if s == "S2": return self.S[2]
         if s == "S3": return self.S3
+        if s == "S4": return self.S4[v % len(self.S4)]
         if s == "empty": return b""
         if s == "trunc":
             if v % 3 == 2: return s1[1 + (v // 3) % 2:]                       # octets lost at the front (leading zero octets, if any)
@@ -194,6 +203,8 @@ def run_batch(args):
             # "a key that does not fit the algorithm" exists for ECDSA (another curve); an unprotected alg naming the algorithm
             # the key does fit makes the token an authentic one of that algorithm: outside this symbol's meaning
             continue
+        if any(e["s"] == "S4" for e in sc["es"]) and (not m.S4 or any(e["u"] == "alg_other" for e in sc["es"])):
+            continue                      # EdDSA has no sibling; an unprotected alg may name the very algorithm the signature was made with
         if sweep and len(sc["edits"]) == 1 and sc["edits"][0][0] in ("hdr", "sig", "text") and sc["edits"][0][-1] in ("X", "junk", "trunc", "raw:PX"):
             # thorough: every bit of the decoded segment / every truncation length
             kindv = sc["edits"][0][-1]
@@ -236,7 +247,7 @@ def load_scenarios(ctx: Ctx):
     rs = ctx.tlc_many([("Jws", "Jws_FALSE", {"timeout": 900}), ("Jws", "Jws_TRUE", {"timeout": 900})])
     ctx.tlc_many([("Jws", "Jws_dev_" + d, {"timeout": 600, "expect_violation": True})
                   for d in ("OobNotVerified", "EmptyListVerifies", "B64FromUnprotected", "SigningInputRebuilt", "FalseNotRaised", "AnySigLength",
-                            "UnprotectedAlgTrusted", "OnlyFirstSignatureChecked", "UnsuitableKeyVerifies")], par=9)
+                            "UnprotectedAlgTrusted", "OnlyFirstSignatureChecked", "UnsuitableKeyVerifies", "SiblingAlgorithmVerifies")], par=10)
     scs, seen = [], set()
     for r in rs:
         for c in r.cases:
